@@ -159,16 +159,118 @@ def run(facts, rep):
     else:
         rep.violation('E19.H3-flags', inst, 'snf flags %s but the assembly unwraps s1.%s / s2.%s: an unrequested transform is None and unwrap() panics' % (flags, sorted(used1), sorted(used2)), where=ps.where())
     # H4
-    rr = [sk(p.ret) for p in SymEx(rs, max_paths=20000).run() if p.end == 'return']
-    inst = 'HomologyCalc::result|rank = n - r1 - r2, torsion from s1'
-    okr = len(rr) == 1 and rr[0].startswith('(SubWithOverflow(SubWithOverflow(n, r1).0, r2).0, ') and 'factors(arg1)' in rr[0]
-    unit_filter = False
-    for k, b in facts.bodies.items():
-        if k.startswith(HC + 'result::{closure'):
-            for p in SymEx(b).run():
-                if any(sk(e.term).startswith('is_unit(') for e in p.branches()):
-                    unit_filter = True
-    if okr and unit_filter:
-        rep.ok('E19.H4-rank-formula', inst, 'n - rank(s1) - rank(s2); non-unit factors of s1')
+    rr = [p.ret for p in SymEx(rs, max_paths=20000).run() if p.end == 'return']
+    inst = 'HomologyCalc::result|rank = n - r1 - r2, torsion = non-unit factors of s1 in diagonal order'
+    if len(rr) != 1 or strip(rr[0])[0] != 'tuple' or len(strip(rr[0])[1]) != 2:
+        rep.indet('E19.H4: HomologyCalc::result does not return one (rank, tors) pair')
+        return
+    rank_t, tors_t = strip(rr[0])[1]
+    probs = []
+    if sk(rank_t) != 'SubWithOverflow(SubWithOverflow(n, r1).0, r2).0':
+        probs.append('rank is computed as %s, expected n - rank(s1) - rank(s2)' % sk(rank_t))
+    try:
+        sel = torsion_chain(facts, rs, tors_t)
+    except Bad as e:
+        rep.indet('E19.H4: torsion list outside the recognised fragment: %s' % e)
+        return
+    if sel['revs'] % 2:
+        probs.append('the torsion orders are listed in reversed diagonal order (%s) while trans takes the torsion generators from rows / columns r1-t..r1 in diagonal order: order i no longer belongs to generator i' % ' <- '.join(sel['chain']))
+    if sel['select'] != 'nonunit':
+        probs.append('the torsion list keeps %s factors of s1 (%s), expected exactly the non-units' % (sel['select'], ' <- '.join(sel['chain'])))
+    if probs:
+        rep.violation('E19.H4-rank-formula', inst, '; '.join(probs), where=rs.where())
     else:
-        rep.violation('E19.H4-rank-formula', inst, 'HomologyCalc::result computes %s (unit filter: %s)' % (rr, unit_filter), where=rs.where())
+        rep.ok('E19.H4-rank-formula', inst, 'n - rank(s1) - rank(s2); %s' % ' <- '.join(sel['chain']))
+
+
+ORDER_KEEPING = {'iter', 'into_iter', 'cloned', 'copied', 'collect', 'to_vec', 'into_vec', 'clone', 'to_owned', 'as_slice', 'deref', 'into', 'from_iter', 'collect_vec'}
+
+
+def pred_kind(facts, owner, t):
+    """closure passed to filter / filter_map / skip_while / take_while -> 'nonunit' | 'unit' (what it answers true / Some for)"""
+    t = strip(t)
+    if t[0] != 'closure':
+        raise Bad('predicate is not a closure: ' + sk(t)[:40])
+    cb = facts.bodies.get(t[1]) or facts.bodies.get(owner.defp + '::' + t[1].split('::')[-1])
+    if cb is None:
+        raise Bad('closure body %s not found' % t[1])
+    kinds = set()
+    for p in SymEx(cb).run():
+        if p.end != 'return':
+            continue
+        r = strip(p.ret)
+        unit = None
+        for e in p.branches():
+            if re.match(r'is_unit\(', sk(e.term)):
+                unit = e.value != 0
+        neg = False
+        while r[0] == 'un' and r[1] == 'Not':
+            neg = not neg
+            r = strip(r[2])
+        if r[0] == 'call' and r[1].split('::')[-1] == 'is_unit':
+            kinds.add('nonunit' if neg else 'unit')
+            continue
+        if unit is None:
+            raise Bad('predicate does not test is_unit: ' + sk(p.ret)[:60])
+        if r[0] == 'const' and isinstance(r[1], (bool, int)):
+            truth = bool(r[1]) != neg
+        elif r[0] == 'adt' and r[1].endswith('Option'):
+            truth = (r[2] == 'Some')
+            if truth and not re.match(r'(clone\()?\*?arg2\)?$', sk(r[4][0]).replace('&', '')):
+                raise Bad('filter_map changes the factor: ' + sk(r[4][0])[:60])
+        else:
+            raise Bad('predicate returns ' + sk(r)[:60])
+        kinds.add(('unit' if unit else 'nonunit') if truth else ('nonunit' if unit else 'unit'))
+    if len(kinds) != 1:
+        raise Bad('predicate is not a function of is_unit alone (%s)' % sorted(kinds))
+    return kinds.pop()
+
+
+def torsion_chain(facts, owner, t):
+    """walk the iterator adapter chain down to factors(s1)"""
+    chain, revs, select = [], 0, 'all'
+    t = strip(t)
+    while True:
+        if t[0] != 'call':
+            raise Bad('not an adapter chain over s1.factors(): ' + sk(t)[:60])
+        n = t[1].split('::')[-1]
+        a = t[2]
+        if n == 'factors' and len(a) == 1 and sk(a[0]).replace('&', '') in ('arg1', 'S1'):
+            chain.append('s1.factors()')
+            break
+        chain.append(n)
+        if n in ORDER_KEEPING and len(a) == 1:
+            pass
+        elif n == 'rev' and len(a) == 1:
+            revs += 1
+        elif n in ('filter', 'filter_map') and len(a) == 2:
+            k = pred_kind(facts, owner, a[1])
+            select = k if select in ('all', k) else 'no'
+        elif n == 'skip_while' and len(a) == 2:
+            # units come first in a divisibility chain: skipping the leading units keeps the non-units (in order)
+            k = pred_kind(facts, owner, a[1])
+            if revs % 2 == 0 and k == 'unit' and not _rev_below(t):
+                select = 'nonunit' if select in ('all', 'nonunit') else 'no'
+            else:
+                raise Bad('skip_while(%s) on a %s chain' % (k, 'reversed' if _rev_below(t) else 'forward'))
+        elif n == 'take_while' and len(a) == 2:
+            k = pred_kind(facts, owner, a[1])
+            if k == 'nonunit' and _rev_below(t):
+                select = 'nonunit' if select in ('all', 'nonunit') else 'no'
+            else:
+                raise Bad('take_while(%s) on a %s chain' % (k, 'reversed' if _rev_below(t) else 'forward'))
+        else:
+            raise Bad('adapter %s' % n)
+        t = strip(a[0])
+    return {'chain': chain, 'revs': revs, 'select': select}
+
+
+def _rev_below(t):
+    """parity of rev adapters below this node"""
+    n = 0
+    t = strip(strip(t)[2][0])
+    while t[0] == 'call' and t[2]:
+        if t[1].split('::')[-1] == 'rev':
+            n += 1
+        t = strip(t[2][0])
+    return n % 2 == 1
